@@ -224,7 +224,8 @@ Record eff (c : list fld) (p : preds) (s s' : state) : Prop := mkEff {
   ef_smq : smq_sub s s';
   ef_hkeep : fmem FhD c = false -> forall x, In x (handlers s) -> In x (handlers s');
   ef_ikeep : fmem FidD c = false -> forall k, In k (ik s) -> In k (ik s');
-  ef_cr : crashed s = true -> crashed s' = true
+  ef_cr : crashed s = true -> crashed s' = true;
+  ef_sqoff : st s <> Connected -> sendq s' = sendq s
 }.
 
 Lemma fmem_app f a b : fmem f (a ++ b) = fmem f a || fmem f b.
@@ -246,7 +247,7 @@ Proof. unfold live. intros [A|A] L; [split; congruence|contradiction]. Qed.
 
 Lemma eff_refl c p s : eff c p s s.
 Proof.
-  constructor; try (intros k H; auto; fail); try (intros _ k H; exact H); try (intros X; exact X).
+  constructor; try (intros k H; auto; fail); try (intros _ k H; exact H); try (intros X; exact X); try (intros _; reflexivity).
   - apply frame_refl.
   - intros _. apply frame_refl.
   - left. reflexivity.
@@ -256,7 +257,7 @@ Qed.
 
 Lemma eff_trans c1 c2 p s s1 s2 : eff c1 p s s1 -> eff c2 p s1 s2 -> eff (c1 ++ c2) p s s2.
 Proof.
-  intros [U1 L1 S1 E1 [l1 [Q1 A1]] H1 I1 T1 M1 HK1 IK1 C1] [U2 L2 S2 E2 [l2 [Q2 A2]] H2 I2 T2 M2 HK2 IK2 C2]. constructor.
+  intros [U1 L1 S1 E1 [l1 [Q1 A1]] H1 I1 T1 M1 HK1 IK1 C1 O1] [U2 L2 S2 E2 [l2 [Q2 A2]] H2 I2 T2 M2 HK2 IK2 C2 O2]. constructor.
   - eapply frame_weaken; [|eapply frame_trans; [exact U1|exact U2]].
     intros f Hf. rewrite !fmem_app in *.
     destruct (fmem f c1), (fmem f c2), (fmem f DISC); simpl in *; congruence.
@@ -276,12 +277,13 @@ Proof.
   - intros Hf k Hk. rewrite fmem_app in Hf. apply orb_false_iff in Hf as [Fa Fb]. apply HK2; [exact Fb|]. apply HK1; assumption.
   - intros Hf k Hk. rewrite fmem_app in Hf. apply orb_false_iff in Hf as [Fa Fb]. apply IK2; [exact Fb|]. apply IK1; assumption.
   - intro X. apply C2, C1, X.
+  - intro X. rewrite O2, O1; auto. destruct S1 as [Y|Y]; rewrite Y; [exact X|discriminate].
 Qed.
 
 Lemma eff_weaken c c' p q s s' :
   (forall f, fmem f c' = false -> fmem f c = false) -> pimp p q -> eff c p s s' -> eff c' q s s'.
 Proof.
-  intros W [WW [WH [WI WT]]] [U L S E [l [Q A]] H I T M HK IK C]. constructor.
+  intros W [WW [WH [WI WT]]] [U L S E [l [Q A]] H I T M HK IK C O]. constructor.
   - eapply frame_weaken; [|exact U]. intros f Hf. rewrite fmem_app in *.
     apply orb_false_iff in Hf as [X Y]. rewrite (W f X), Y. reflexivity.
   - intro Lv. eapply frame_weaken; [exact W|apply L; exact Lv].
@@ -295,6 +297,7 @@ Proof.
   - intro Hf. apply HK. apply W. exact Hf.
   - intro Hf. apply IK. apply W. exact Hf.
   - exact C.
+  - exact O.
 Qed.
 
 (* sequencing with weakening to a common (c, p) *)
@@ -326,6 +329,7 @@ Proof.
   - intros _ k Hk. rewrite Hh. exact Hk.
   - intros _ k Hk. pose proof (F Fid C) as X. cbn in X. rewrite X. exact Hk.
   - exact Hc.
+  - intros _. exact (F Fsq A).
 Qed.
 Ltac eff_frame :=
   apply eff_of_frame; [solve_frame|reflexivity|reflexivity|reflexivity|reflexivity|reflexivity|reflexivity|
@@ -337,10 +341,10 @@ Lemma eff_mk c p s s' :
   sq_ext (pw p) s s' -> h_sub (ph p) s s' -> i_sub (pid p) s s' -> t_sub (pt p) s s' -> smq_sub s s' ->
   (fmem FhD c = false -> forall x, In x (handlers s) -> In x (handlers s')) ->
   (fmem FidD c = false -> forall k, In k (ik s) -> In k (ik s')) ->
-  fmem Fcr c = false ->
+  fmem Fcr c = false -> (st s <> Connected -> sendq s' = sendq s) ->
   eff c p s s'.
 Proof.
-  intros F G Hs A B C D E HK IK Hc. constructor; try assumption.
+  intros F G Hs A B C D E HK IK Hc Ho. constructor; try assumption.
   - eapply frame_weaken; [|exact F]. intros f Hf. rewrite fmem_app in Hf. apply orb_false_iff in Hf. tauto.
   - intros _. exact F.
   - left. exact (F Fst G).
@@ -357,6 +361,7 @@ Ltac mk_auto :=
   try (solve_frame); try same_side; try (intros _; reflexivity); try reflexivity;
   try (let H := fresh in intros _ ? H; exact H);
   try (let X := fresh in intro X; discriminate X).
+  (* leaves: the list-field goals that really change *)
 
 Definition pW (P : entry -> Prop) : preds := mkP P (fun _ => False) (fun _ => False) (fun _ => False).
 Definition pH (P : hkind -> Prop) : preds := mkP (fun _ => False) P (fun _ => False) (fun _ => False).
@@ -366,10 +371,10 @@ Definition pT (P : tkind -> Prop) : preds := mkP (fun _ => False) (fun _ => Fals
 (* ------------------------------------------------------------------ primitive functions *)
 Definition qa_entry (w : welem) (u m : bool) (s : state) : entry := (w, u, m || (negb u && negb (sm_enabled s))).
 
-Lemma q_append_eff w u m s :
+Lemma q_append_eff w u m s : st s = Connected ->
   eff [Fsq] (pW (fun x => x = qa_entry w u m s \/ x = (WReq, false, true))) s (q_append w u m s).
 Proof.
-  unfold q_append. cbv zeta. break_if; mk_auto.
+  intro Hc. unfold q_append. cbv zeta. break_if; mk_auto; try (intro X; congruence).
   - exists [qa_entry w u m s; (WReq, false, true)]. split.
     + simpl. rewrite <- app_assoc. reflexivity.
     + constructor; [left; cbn; auto|constructor; [left; cbn; auto|constructor]].
@@ -377,10 +382,13 @@ Proof.
 Qed.
 Lemma send_gated_eff w u m s :
   eff [Fsq] (pW (fun x => x = qa_entry w u m s \/ x = (WReq, false, true))) s (send_gated w u m s).
-Proof. unfold send_gated. break_if; [apply q_append_eff|apply eff_refl]. Qed.
+Proof.
+  unfold send_gated, is_connected_owner. destruct (st s) eqn:E; try apply eff_refl.
+  break_if; [apply q_append_eff; exact E|apply eff_refl].
+Qed.
 Lemma send_raw_m_eff w u m s :
   eff [Fsq] (pW (fun x => x = qa_entry w u m s \/ x = (WReq, false, true))) s (send_raw_m w u m s).
-Proof. unfold send_raw_m. break_match; try apply q_append_eff; apply eff_refl. Qed.
+Proof. unfold send_raw_m. destruct (st s) eqn:E; try apply eff_refl. apply q_append_eff. exact E. Qed.
 (* nothing is queued unless Connected *)
 Lemma send_gated_off w u m s : st s <> Connected -> send_gated w u m s = s.
 Proof. unfold send_gated, is_connected_owner. destruct (st s); try reflexivity. congruence. Qed.
@@ -503,6 +511,7 @@ Proof.
   all: try (intros _; right; reflexivity).
   all: try (let H := fresh in intros _ ? H; exact H).
   all: try (let H := fresh in intros H; exact H).
+  all: try (intros _; reflexivity).
   all: intros f H; destruct f; try discriminate H; reflexivity.
 Qed.
 Lemma conn_disconnect_st s : crashed (fst (conn_disconnect s)) = false -> crashed s = false ->
@@ -633,7 +642,7 @@ Ltac psolve := repeat split; cbn; try tauto.
 Lemma eff_absorb c P Ph Pi Pt s s' :
   eff c (mkP (fun x => P x \/ In (fst (fst x)) (sw s)) Ph Pi Pt) s s' -> eff c (mkP P Ph Pi Pt) s s'.
 Proof.
-  intros [U L S E [l [Q A]] H I T M HK IK C]. constructor; try assumption.
+  intros [U L S E [l [Q A]] H I T M HK IK C O]. constructor; try assumption.
   exists l. split; [exact Q|]. eapply Forall_impl; [|exact A]. cbn. tauto.
 Qed.
 
